@@ -3,11 +3,12 @@
    search() always terminates and prints zero or more info lines followed by EXACTLY ONE bestmove; when the PV is still empty
    (stop seen before the first root move completed, depth 0, root handed to quiescence because of the half-move clock) the answer is
    the first legal move whenever a legal move exists; every move with board squares and a regular promotion piece prints as
-   well-formed UCI notation.  That a non-empty PV starts with a legal move (C03_pv_case, visible, not assumed) is decided per run
-   by the extracted monitor on the engine's answers (stop injected at every poll index of small searches). *)
+   well-formed UCI notation.  The best move is a move accepted by both legality paths (C03_bestmove_legal), hence -- for every position
+   satisfying the invariant -- a legal move under the rules (C03_bestmove_legal_under_the_rules, through C01).  On every run the extracted
+   monitor judges the engine's answers (stop injected at every poll index of small searches). *)
 From Coq Require Import NArith ZArith List Bool String.
 From JV Require Import Gen.Consts Model.Chess Model.Eval Model.TT Model.Search Model.SearchChess Model.Monitors
-     Proofs.SearchBalance Proofs.SearchOutputs Proofs.UciProofs Proofs.SearchPV Proofs.MoveGenProofs Props.C12.
+     Proofs.SearchBalance Proofs.SearchOutputs Proofs.UciProofs Proofs.SearchPV Proofs.MoveGenProofs Proofs.LegalInv Proofs.RulesLevel Props.C12.
 Import ListNotations.
 
 Theorem C03_exactly_one_bestmove : forall pollp stop_at bypass g depth t rt ri,
@@ -52,14 +53,22 @@ Proof.
   - contradiction.
 Qed.
 
-Definition C03_pv_case : Prop := forall pollp stop_at bypass g depth t hist,
-  Abs.wf g = true -> keyok_b g = true -> spec_has_legal g = true ->
-  match chess_search pollp stop_at bypass g depth t (app hist (repeat 0%N (1000 - List.length hist))) (List.length hist) with
+(* the rules-level statement: for every position satisfying the invariant in which the rules allow a move, the best move of every
+   search is a legal move under the rules (mon_bestmove) *)
+Theorem C03_bestmove_legal_under_the_rules : forall pollp stop_at bypass g depth t rt ri, legal_inv g -> spec_has_legal g = true ->
+  match chess_search pollp stop_at bypass g depth t rt ri with
   | SDone outs _ _ => Forall (fun o => match o with OBest m => mon_bestmove g m = true | _ => True end) outs
-  | SFuel => False
+  | SFuel => True
   end.
+Proof.
+  intros pollp stop_at bypass g depth t rt ri LI HL.
+  pose proof (C03_bestmove_legal pollp stop_at bypass g depth t rt ri (spec_has_legal_model g LI HL)) as H.
+  destruct (chess_search pollp stop_at bypass g depth t rt ri) as [outs e s|]; [|exact I].
+  apply Forall_forall. intros o Ho. destruct o as [sc mt d n pv|m]; [exact I|]. apply model_legal_is_rules_legal; [exact LI|]. apply H. exact Ho.
+Qed.
 
 Print Assumptions C03_exactly_one_bestmove.
 Print Assumptions C03_fallback_legal.
 Print Assumptions C03_uci_syntax.
 Print Assumptions C03_bestmove_legal.
+Print Assumptions C03_bestmove_legal_under_the_rules.
